@@ -16,8 +16,9 @@ def J(name, tier="quick", mem_gb=6, timeout_s=600, bound="", encodes=(), unwind_
 PROPS = {}
 
 PROPS["C14"] = dict(
-    bounds="BigNum/Int: all u64 / all of -2^64..2^64-1; CBOR decode: every byte string of <= 9 bytes",
-    assumptions=[],
+    bounds="BigNum/Int: all u64 / all of -2^64..2^64-1; CBOR decode: every byte string of <= 9 bytes; mint builder: one add / set step from policy absent / native / Plutus with any stored and offered amount; "
+           "decimal strings: every i128 / u64 std's parser can return",
+    assumptions=["str::parse::<i128 / u64> is a stub returning an arbitrary number of its type or an error (std's decimal parser and formatter are trusted); MintBuilder::validate_mint_witness and script_hash are stubs"],
     e1=[
         J("c14_bignum_arith", bound="a,b: all u64", encodes=["BigNum::checked_add", "checked_sub", "clamped_sub", "compare", "less_than", "max", "TryFrom<BigNum> for u32"]),
         J("c14_bignum_encode", bound="all u64", encodes=["BigNum::to_bytes"]),
@@ -156,7 +157,8 @@ PROPS["C14"]["bounds"] += ("; BigInt narrowing (as_u64, as_int): every mathemati
                            "(absent, empty, policy without assets, 1-2 assets, two policies) over 2 policies x 2 asset names, coins and quantities over all u64 including 0")
 PROPS["C14"]["assumptions"] = ["Value operations are decided component-wise on concrete bundle shapes; commutativity / associativity of addition and 'subtraction undoes addition' follow from component-wise exactness "
                                "and are not separate obligations; bundles with more than 2 policies / 2 names per policy are outside the bound",
-                               "decimal-string forms (to_str / from_str) are not decided (core::fmt under Kani does not finish)"]
+                               "decimal strings: str::parse::<i128 / u64> is a stub returning an arbitrary number of its type or an error and to_str is format! (std's decimal parser / formatter are trusted); "
+                               "what is decided is the crate's own range check around the parser; MintBuilder::validate_mint_witness and script_hash are stubs in the mint-builder obligation"]
 
 PROPS["C09"] = dict(
     bounds="each of the seven script sources present/absent with one arbitrary Plutus witness; no / 1 / 2 extra witness datums (thorough: also an empty list)",
@@ -197,7 +199,9 @@ PROPS["C01"] = dict(
     bounds="struct level: TransactionBody (21 keys) and TransactionWitnessSet (8 keys): presence combinations none / singles / pairs / all, optional collections present-but-empty or non-empty, scalar fields all u64, nested values opaque items; "
            "leaf level: the C03 and C14 E1 harnesses (encode == reference bytes, decode of the numeric leaves)",
     assumptions=["cbor_event's Serializer/Deserializer are modelled at token level (mir2smt/cbormodel.py); a nested value of another type is one opaque well-formed item carrying the value's identity",
-                 "decoders of nested types, byte-level encodings of collections, governance actions, parameter updates, metadata, Plutus data and blocks are outside this obligation"],
+                 "generic round trip: collections reached through a lazily initialised value are unfolded to 0 / 1 / 2 lazily initialised elements (a fork per size); map keys and the vectors of the set-typed collections hold pairwise "
+                 "distinct elements (their representation invariant, C16); an opaque item carries the value it was written from, so the decoder hands back that very value",
+                 "byte-level encodings of leaves, collections beyond 2 elements, PlutusMap, recursive enum trees (Plutus data, metadatum) are outside this obligation"],
     e1=[],
     e2=["c01"],
 )
